@@ -196,9 +196,17 @@ func vMaterialize(root string) {
 				b := vImgEncode(c["codec"].(string), msg, lens)
 				if c["full"] != true {
 					// a strict, non-empty prefix of the payload
+					// the model's cut is relative to the model's length; map it onto the real length
+					// (VERIF_CUT_MODE selects another strict prefix of the same class: the longest / the shortest)
 					cut := 1
 					if ml := vImgU64(c["modelLen"]); ml > 0 {
 						cut = int(vImgU64(c["avail"]) * uint64(len(b)) / ml)
+					}
+					switch os.Getenv("VERIF_CUT_MODE") {
+					case "max":
+						cut = len(b) - 1
+					case "min":
+						cut = 1
 					}
 					if cut < 1 {
 						cut = 1
@@ -293,14 +301,19 @@ func vGenLogOp(name string, cur []*LogEntry) *vLogOp {
 	switch op.kind {
 	case 0:
 		n := 1 + vChoose(name+".batch", vBound("batch"))
+		shape := ""
 		for i := 0; i < n; i++ {
 			e := &LogEntry{Index: last + 1 + uint64(i), Term: vNondetU64(name + ".term"), EntryType: LogEntryType(vNondetU32(name + ".type"))}
 			if vNondetBool(name + ".hasData") {
-				e.Data = []byte{vNondetByte(name + ".data")}
+				e.Data = vSymBytes(name+".data", 16)
+				shape += "d"
+			} else {
+				shape += "n"
 			}
 			vAssume(e.Term >= 1) // a real entry never encodes to zero bytes
 			op.entries = append(op.entries, e)
 		}
+		vTag(name+".payloads", shape)
 	case 1, 2:
 		op.pos = 1 + vChoose(name+".pos", len(cur)-1)
 		op.index = cur[op.pos].Index
@@ -365,6 +378,7 @@ func vh_LogCrash() {
 		if opErr = l.Replay(); opErr != nil {
 			return
 		}
+		vAssertEngine(!vFileDirty(root+"/log/log.bin"), "C04|C12.log-file-synced-before-operation-returns", "placeholder written without Sync")
 		done = 1
 		for i := range ops {
 			if opErr = vApplyLogOp(l, ops[i]); opErr != nil {
@@ -372,6 +386,9 @@ func vh_LogCrash() {
 			}
 			// memory agrees with the reference after every completed operation
 			vAssert(vSameEntries(l.entries, states[i+1]), "C12.memory-matches-reference")
+			// the operation asked for durability before it returned (and before it published to memory)
+			vAssertEngine(!vFileDirty(root+"/log/log.bin"), "C04|C12.log-file-synced-before-operation-returns", "log.bin written or truncated without a following Sync")
+			vAssertEngine(!vRenamedUnsynced(), "C04|C12.temporary-file-synced-before-rename", "a temporary file was renamed over log.bin without a Sync")
 			done = 2 + i
 		}
 	})
@@ -427,14 +444,13 @@ func vh_LogCrash() {
 	vCoverIf(crashed, "crashed-and-reopened")
 	// ---- C12.again: the reopened log keeps working: one more append, truncate it away again, reopen
 	base := vCloneEntries(got)
-	extra := &LogEntry{Index: got[len(got)-1].Index + 1, Term: vNondetU64("again.term"), Data: []byte{vNondetByte("again.data")}}
-	vAssume(extra.Term >= 1)
+	// a minimal record (shorter than any record with a payload): what is left behind it, if anything,
+	// is what a torn append leaves
+	extra := &LogEntry{Index: got[len(got)-1].Index + 1, Term: vNondetU64("again.term")}
+	vAssume(vAnd(extra.Term >= 1, extra.Term < 128))
 	vAssert(l2.AppendEntries([]*LogEntry{extra}) == nil, "C12.append-after-reopen")
-	vAssert(l2.Truncate(extra.Index) == nil, "C12.truncate-after-reopen")
-	extra2 := &LogEntry{Index: extra.Index, Term: vNondetU64("again.term2")}
-	vAssume(extra2.Term >= 1)
-	vAssert(l2.AppendEntries([]*LogEntry{extra2}) == nil, "C12.append-after-truncate")
 	vAssert(l2.Close() == nil, "C12.close-after-reopen")
+	// second reopen: the acknowledged append is there and nothing else
 	lg3, err := NewLog(root)
 	vAssert(err == nil, "C12.second-reopen-newlog-succeeds")
 	if err != nil {
@@ -447,8 +463,28 @@ func vh_LogCrash() {
 	if err != nil {
 		return
 	}
-	vAssert(vSameEntries(l3.entries, append(base, extra2)), "C12.second-reopen-entries")
+	vAssert(vSameEntries(l3.entries, append(vCloneEntries(base), extra)), "C12.second-reopen-entries")
 	vAssert(!vMisparsed(), "C12.framing-intact-after-second-cycle")
+	// third cycle: truncate the new entry away again, append another one in its place, reopen
+	vAssert(l3.Truncate(extra.Index) == nil, "C12.truncate-after-reopen")
+	extra2 := &LogEntry{Index: extra.Index, Term: vNondetU64("again.term2")}
+	vAssume(extra2.Term >= 1)
+	vAssert(l3.AppendEntries([]*LogEntry{extra2}) == nil, "C12.append-after-truncate")
+	vAssert(l3.Close() == nil, "C12.close-after-truncate")
+	lg4, err := NewLog(root)
+	vAssert(err == nil, "C12.third-reopen-newlog-succeeds")
+	if err != nil {
+		return
+	}
+	l4 := lg4.(*persistentLog)
+	vAssert(l4.Open() == nil, "C12.third-reopen-open-succeeds")
+	err = l4.Replay()
+	vAssert(err == nil, "C12.third-reopen-replay-succeeds")
+	if err != nil {
+		return
+	}
+	vAssert(vSameEntries(l4.entries, append(base, extra2)), "C12.third-reopen-entries")
+	vAssert(!vMisparsed(), "C12.framing-intact-after-third-cycle")
 	vCover("second-cycle")
 }
 
